@@ -125,12 +125,18 @@ fn sampled(rng: &mut Rng, w: &Workload, reference: &RunResult, f: Flavor, label:
     } else {
         (window + bound, true)
     };
+    let mut gc = sample_gc(rng, f.gc_stress);
+    if ref_steps > 40_000 && gc == GcTemplate::FullEveryStep {
+        // a complete cycle before every instruction costs (instructions x heap size); on long
+        // runs that is minutes per run, so long runs get the targeted template instead
+        gc = GcTemplate::Targeted { p: 30 };
+    }
     let personality = Personality {
         budget: sample_budget(rng, w.has_tasks),
         stall_pct: if f.stalls { *rng.pick(&[0u8, 10, 50, 90]) } else { 0 },
         stall_max: *rng.pick(&[1, 5, 50]),
         stall_main_only: f.stall_main_only,
-        gc: sample_gc(rng, f.gc_stress),
+        gc,
         fault_window: window,
         neutral: w.neutral_budget(),
     };
@@ -148,8 +154,11 @@ fn sampled(rng: &mut Rng, w: &Workload, reference: &RunResult, f: Flavor, label:
     }
 }
 
-fn fixed(personality: Personality, reference: &RunResult, label: &str, selfcheck_every: u32) -> RunSpec {
+fn fixed(mut personality: Personality, reference: &RunResult, label: &str, selfcheck_every: u32) -> RunSpec {
     let tasks = reference.n_threads.max(1) as u64;
+    if reference.steps > 40_000 && personality.gc == GcTemplate::FullEveryStep {
+        personality.gc = GcTemplate::Targeted { p: 30 };
+    }
     RunSpec {
         mode: Mode::Normal,
         label: label.to_string(),
